@@ -14,6 +14,21 @@ P = {
          "Real replicas run thousands of generated edit/sync histories (incl. >1MB multi-version syncs, SQLite replicas, an exhaustive tiny core) against a harness chain server; after every action the stored state must equal replay(chain..base)+unsynced and at quiescence every replica must equal the independent replay of the stored versions. Held-on-observed, not a proof.",
          "Trusts the harness chain server and the harness' own JSON decoder/reference semantics (written from the docs); histories contain only operations valid in the issuing replica's state.",
          "DESIGN.md §5 C01"),
+ "C05": (True, "E1-history", "exploration",
+         "runtime monitor: one-at-a-time reference model + error injection at every storage call of a commit",
+         "Every batch of <=3 operations over a 13-operation alphabet on 4 prior states (exhaustively on in-memory storage; SQLite sampled in quick, full in thorough) plus random batches up to 30 operations is committed through the real Replica and compared with the documented one-at-a-time semantics, the expected unsynced list, the undo/operation counters and the replica invariant; an error injected at each storage call of the commit must leave no trace.",
+         "Atomicity fault model is 'a storage call returns an error' (process death is C06). Reference semantics written from docs/src/storage.md.",
+         "DESIGN.md §5 C05"),
+ "C12": (True, "E1-history", "exploration",
+         "runtime monitor: independent snapshot decoder vs chain replay at the Server boundary; scripted urgencies",
+         "A harness server scripts the snapshot urgency of every add_version reply, decodes every uploaded snapshot itself (zlib+JSON) and compares it with its own replay of the chain up to that version; checks the urgency threshold; starts fresh replicas from a snapshot with older versions discarded; offers poison snapshots to non-empty replicas. Includes >1MB multi-version syncs, hostile Unicode, thousands of tasks.",
+         "A missing snapshot is only asserted for the last version of a sync call (docs: snapshots are made with nothing unsynchronized). Trusts flate2's zlib decoder and serde_json in the oracle.",
+         "DESIGN.md §5 C12"),
+ "C14": (True, "E1-history", "exploration",
+         "runtime monitor: strict wire-format validator at the Server boundary + hand-written documents replayed against the reference model",
+         "Every history segment a replica hands to the Server trait is validated strictly (keys, types, uuid and timestamp syntax, no extra fields), compared in order and content with the committed operations, and scanned for markers planted in undo-only data; conversely thousands of hand-written documents (other field orders, whitespace, escapes, timestamp precisions, invalid-but-well-formed operations) are applied by a fresh replica and compared with the reference model.",
+         "The {\"operations\":[...]} wrapper is treated as normative (the book shows a bare array). Hand-written documents stay inside the documented grammar.",
+         "DESIGN.md §5 C14"),
 }
 
 NOT_YET = "check not built yet in this round (see DESIGN.md §5c build order)"
